@@ -297,9 +297,10 @@ def ifaceHead (what key : Str) : List Op :=
 def importInterface (key : Str) (i : Iface) : List Op :=
   ifaceHead (s "Import") key ++ docsOps i.docs ++ [.str ['\n']] ++ defineTypes false i.types ++ funcsOps i.funcs
 
-/-- note: the interface's own doc comment is not printed for an exported interface -/
+/-- `export_interface`: like `import_interface` (the interface's doc comment is printed since the
+`fix:` commit that added the `docs(..)` call) -/
 def exportInterface (key : Str) (i : Iface) : List Op :=
-  ifaceHead (s "Export") key ++ defineTypes false i.types ++ funcsOps i.funcs
+  ifaceHead (s "Export") key ++ docsOps i.docs ++ [.str ['\n']] ++ defineTypes false i.types ++ funcsOps i.funcs
 
 def worldHead (pre wname : Str) : List Op := [.str pre, .str wname, .str (s "`\n\n")]
 
@@ -549,11 +550,10 @@ def allDocs (w : World) : List Str :=
 
 def docsVerbatim (md : Str) (w : World) : Bool := (allDocs w).all (docIn md)
 
-/-- What the generator prints of an exported item: as `itemDocs`, but not the doc comment of the
-interface itself (`export_interface` has no `docs(..)` call), and no exported type items
-(`unreachable!()` in `WorldGenerator::generate`). -/
+/-- What the generator prints of an exported item: as `itemDocs`, but no exported type items
+(`unreachable!()` in `WorldGenerator::generate`: a valid world has none). -/
 def exportItemDocs : Item → List Str
-  | .iface _ i => i.types.flatMap typeDocs ++ i.funcs.filterMap (·.docs)
+  | .iface _ i => ifaceDocs i
   | .func _ f => f.docs.toList
   | .type _ _ => []
 
